@@ -142,7 +142,11 @@ func (x *runner) judge(sc *Scenario, idx int, obs *lifeObs, pre []string, nextH 
 		bad = true
 		x.c.Violation("recovery:visible-before-flush:"+phase, fmt.Sprintf("life %d: a broadcast / commit callback happened with unflushed log appends before it", idx), sc, false)
 	}
-	if v[3] != "1" {
+	if v[3] != "1" && staleTimeoutCommit(obs) != "" {
+		bad = true
+		x.c.Hist["verdict:stale-timeout-commit"]++
+		x.c.Violation("recovery:stale-timeout-commits-unlogged", staleTimeoutCommit(obs), sc, false)
+	} else if v[3] != "1" {
 		bad = true
 		x.c.Violation("recovery:visible-without-logged-input:"+phase, fmt.Sprintf("life %d: a step made effects visible without first appending its own input", idx), sc, false)
 	}
@@ -193,6 +197,23 @@ func (x *runner) judge(sc *Scenario, idx int, obs *lifeObs, pre []string, nextH 
 		x.c.Hist[fmt.Sprintf("replayed_entries:%s", bucket(replayed))]++
 	}
 	x.c.Count(fmt.Sprintf("%s|%d|%s", sc.Case.newLine(), idx, lifeLine(l)), l.CrashAt >= 0 || replayed > 0)
+}
+
+// a timeout that matches nothing (stale) still runs processLoop; if a commit was pending (quorum of precommits
+// completed by the validator's own precommit while the loop was looking at another round) the commit
+// callback runs although nothing of this call was logged.  Returns a description, "" if this is not the case.
+func staleTimeoutCommit(obs *lifeObs) string {
+	for _, s := range obs.Steps {
+		if !strings.HasPrefix(s.Label, "to ") || len(s.Effs) == 0 || strings.HasPrefix(s.Effs[0], "wt:") {
+			continue
+		}
+		for _, e := range s.Effs {
+			if strings.HasPrefix(e, "cb:") {
+				return "stale timeout [" + s.Label + "] => [" + strings.Join(s.Effs, " ") + "]: the commit callback runs in a call whose input is not logged"
+			}
+		}
+	}
+	return ""
 }
 
 func bucket(n int) string {
